@@ -22,7 +22,8 @@ Metas == { Base,
            [Base EXCEPT !.type = [name |-> "foo", hasargs |-> TRUE, args |-> <<>>, kw |-> <<Kw("l", [t |-> "lst", xs |-> <<I(1), Var("u")>>])>>]] }
 Pre == << [t |-> "arr", ty |-> "int", x |-> "A", shape |-> <<>>, rows |-> << <<I(0), I(1), I(2)>> >>],
           [t |-> "var", ty |-> "str", x |-> "s", e |-> SStr("txt")],
-          [t |-> "var", ty |-> "float", x |-> "f", e |-> F(3, 2)] >>
+          [t |-> "var", ty |-> "float", x |-> "f", e |-> F(3, 2)],
+          [t |-> "arr", ty |-> "complex", x |-> "Z", shape |-> <<>>, rows |-> << <<Cpx(1, 2), Cpx(0, 2)>> >>] >>
 Good == { G(<<F(1, 2)>>, <<Kw("k", I(1))>>, <<I(0)>>), Stmt("MeasureX", FALSE, <<>>, <<>>, <<I(1)>>, "none"),
           [t |-> "var", ty |-> "int", x |-> "m", e |-> I(2)],
           For("int", "i", [t |-> "range", a |-> 0, b |-> 2, c |-> 0, hasc |-> FALSE], <<G(<<Var("i")>>, <<>>, <<Var("i")>>)>>) }
@@ -48,6 +49,10 @@ ComplexIntoReal == { [t |-> "var", ty |-> "int", x |-> "c", e |-> Cpx(1, 2)], [t
                      [t |-> "var", ty |-> "int", x |-> "c", e |-> Bin("*", [t |-> "brk", a |-> Cpx(1, 1)], [t |-> "brk", a |-> Cpx(1, -1)])],
                      [t |-> "var", ty |-> "float", x |-> "c", e |-> Bin("*", Cpx(0, 2), Cpx(0, 2))],
                      [t |-> "var", ty |-> "float", x |-> "c", e |-> Bin("+", Var("f"), Cpx(0, 1))],
+                     \* a whole complex array (bare, negated, squared, through a function of it) assigned to a real scalar-typed name
+                     [t |-> "var", ty |-> "float", x |-> "c", e |-> Var("Z")], [t |-> "var", ty |-> "int", x |-> "c", e |-> [t |-> "neg", a |-> Var("Z")]],
+                     [t |-> "var", ty |-> "float", x |-> "c", e |-> Bin("**", Var("Z"), I(2))], [t |-> "var", ty |-> "float", x |-> "c", e |-> Bin("*", Var("Z"), Var("Z"))],
+                     [t |-> "var", ty |-> "float", x |-> "c", e |-> [t |-> "idx", x |-> "Z", e |-> I(1)]],
                      [t |-> "arr", ty |-> "float", x |-> "C", shape |-> <<>>, rows |-> << <<F(1, 2), Cpx(0, 2)>> >>],
                      [t |-> "arr", ty |-> "int", x |-> "C", shape |-> <<>>, rows |-> << <<I(1)>>, <<Bin("*", Cpx(0, 1), I(2))>> >>] }
 BadLoopValue == { For("int", "i", Vals(<<I(1), F(5, 2)>>), <<G(<<Var("i")>>, <<>>, <<I(0)>>)>>),
